@@ -79,7 +79,10 @@ type (
 	stringD1 string
 )
 
-var utf16Encoder = unicode.UTF16(unicode.BigEndian, unicode.IgnoreBOM).NewEncoder() // ucs2 is utf16 actually
+// utf16Encoding describes how joliet strings are encoded (ucs2 is utf16 actually).
+// Encoder made from it is stateful, so every conversion must use its own one:
+// images may be built from several goroutines (one per client connection) at the same time.
+var utf16Encoding = unicode.UTF16(unicode.BigEndian, unicode.IgnoreBOM)
 
 // volumeDescriptorHeader represents the data in bytes 0-6
 // of a Volume Descriptor as defined in ECMA-119 8.1
@@ -375,7 +378,7 @@ func mangleStrA(in string, joliet bool) stringA {
 	}, in)
 
 	if joliet {
-		ret, _ = utf16Encoder.String(ret)
+		ret, _ = utf16Encoding.NewEncoder().String(ret)
 	}
 
 	return stringA(ret)
@@ -397,7 +400,7 @@ func mangleStrD(in string, joliet bool) stringD {
 	}, in)
 
 	if joliet {
-		ret, _ = utf16Encoder.String(ret)
+		ret, _ = utf16Encoding.NewEncoder().String(ret)
 	}
 
 	return stringD(ret)
@@ -415,7 +418,7 @@ func mangleStrD1(in string, joliet bool) stringD1 {
 	}, in)
 
 	if joliet {
-		ret, _ = utf16Encoder.String(ret)
+		ret, _ = utf16Encoding.NewEncoder().String(ret)
 	}
 
 	return stringD1(ret)
